@@ -3,6 +3,8 @@
 
 #include "SplineTrajectory.hpp"
 #include <algorithm>
+#include <atomic>
+#include <mutex>
 #include <vector>
 #include <cmath>
 #include <iostream>
@@ -440,7 +442,8 @@ namespace SplineTrajectory
         mutable std::vector<SpatialVariableLayout> spatial_layout_;
         mutable int derivatives_offset_ = 0;
         mutable int total_dimension_ = 0;
-        mutable bool layout_dirty_ = true;
+        mutable std::atomic<bool> layout_dirty_{true};
+        mutable std::mutex layout_mutex_;
         
         /**
          * @brief Helper method to retrieve or create the internal workspace.
@@ -457,7 +460,7 @@ namespace SplineTrajectory
 
         void markLayoutDirty()
         {
-            layout_dirty_ = true;
+            layout_dirty_.store(true, std::memory_order_release);
         }
 
         bool isSpatialOptimized(int idx) const
@@ -506,7 +509,7 @@ namespace SplineTrajectory
             {
                 derivatives_offset_ = 0;
                 total_dimension_ = 0;
-                layout_dirty_ = false;
+                layout_dirty_.store(false, std::memory_order_release);
                 return;
             }
 
@@ -525,16 +528,20 @@ namespace SplineTrajectory
 
             derivatives_offset_ = offset;
             total_dimension_ = derivatives_offset_ + countOptimizedDerivativeBlocks() * DIM;
-            layout_dirty_ = false;
+            layout_dirty_.store(false, std::memory_order_release);
         }
 
         void ensureLayoutCache() const
         {
-            if (!layout_dirty_)
+            if (!layout_dirty_.load(std::memory_order_acquire))
             {
                 return;
             }
-            rebuildLayoutCache();
+            std::lock_guard<std::mutex> lock(layout_mutex_);
+            if (layout_dirty_.load(std::memory_order_relaxed))
+            {
+                rebuildLayoutCache();
+            }
         }
         
         static constexpr double MIN_VALID_DURATION = 1e-3; // 1 ms
@@ -561,7 +568,7 @@ namespace SplineTrajectory
               spatial_layout_(other.spatial_layout_),
               derivatives_offset_(other.derivatives_offset_),
               total_dimension_(other.total_dimension_),
-              layout_dirty_(other.layout_dirty_)
+              layout_dirty_(other.layout_dirty_.load())
         {
             active_time_map_ = (other.active_time_map_ == &other.default_time_map_)
                               ? &default_time_map_
@@ -592,7 +599,7 @@ namespace SplineTrajectory
                 spatial_layout_ = other.spatial_layout_;
                 derivatives_offset_ = other.derivatives_offset_;
                 total_dimension_ = other.total_dimension_;
-                layout_dirty_ = other.layout_dirty_;
+                layout_dirty_.store(other.layout_dirty_.load());
 
                 active_time_map_ = (other.active_time_map_ == &other.default_time_map_)
                                   ? &default_time_map_
